@@ -56,7 +56,6 @@ package contracts
 //@   trusted
 //@   assigns post(b), delivered(c)
 //@   ensures 0 <= n && n <= len(b)
-//@   ensures err != nil ==> n == 0
 //@   ensures delivered(c) == old(delivered(c)) ++ post(b)[:n]
 
 //@ func fmt.Errorf :: format, a -> err
